@@ -1,0 +1,126 @@
+//go:build verif
+
+package main
+
+// Verification hook (C34); not part of the normal build.
+//
+// When ZOEKT_VERIF_DRIVER=c34 the command answers one JSON request per stdin line:
+//
+//	{"op":"exec","args":[...]}                          -> execute(args, out, errOut) run in-process
+//	{"op":"discover","roots":[...]}                     -> discoverRepositories
+//	{"op":"plan","desired":[...],"shards":[...]}        -> planPrune
+//	{"op":"records","shards":[...]}                     -> recordsFromShards
+//	{"op":"select","shards":[...],"selectors":[...]}    -> selectRecords(recordsFromShards(shards), selectors)
+//	{"op":"normalize","source":"..."}                   -> normalizeSource
+
+import (
+	"bufio"
+	"bytes"
+	"encoding/json"
+	"fmt"
+	"os"
+
+	"github.com/sourcegraph/zoekt"
+)
+
+type verifC34Shard struct {
+	Path   string `json:"path"`
+	Name   string `json:"name"`
+	Source string `json:"source"`
+}
+
+type verifC34Req struct {
+	Op        string           `json:"op"`
+	Args      []string         `json:"args,omitempty"`
+	Roots     []string         `json:"roots,omitempty"`
+	Desired   []repositorySpec `json:"desired,omitempty"`
+	Shards    []verifC34Shard  `json:"shards,omitempty"`
+	Selectors []string         `json:"selectors,omitempty"`
+	Source    string           `json:"source,omitempty"`
+}
+
+type verifC34Resp struct {
+	Out     string             `json:"out"`
+	ErrOut  string             `json:"errout,omitempty"`
+	Err     string             `json:"err,omitempty"`
+	Panic   string             `json:"panic,omitempty"`
+	Repos   []repositorySpec   `json:"repos,omitempty"`
+	Actions []pruneAction      `json:"actions,omitempty"`
+	Records []repositoryRecord `json:"records,omitempty"`
+}
+
+func verifC34Shards(in []verifC34Shard) []shardInfo {
+	shards := make([]shardInfo, 0, len(in))
+	for _, s := range in {
+		shards = append(shards, shardInfo{Path: s.Path, Repository: &zoekt.Repository{Name: s.Name, Source: s.Source}})
+	}
+	return shards
+}
+
+func verifC34Handle(req verifC34Req) (resp verifC34Resp) {
+	defer func() {
+		if r := recover(); r != nil {
+			resp.Panic = fmt.Sprint(r)
+		}
+	}()
+	fail := func(err error) {
+		if err != nil {
+			resp.Err = err.Error()
+			if resp.Err == "" {
+				resp.Err = "error"
+			}
+		}
+	}
+	switch req.Op {
+	case "exec":
+		var out, errOut bytes.Buffer
+		err := execute(req.Args, &out, &errOut)
+		resp.Out, resp.ErrOut = out.String(), errOut.String()
+		fail(err)
+	case "discover":
+		repos, err := discoverRepositories(req.Roots)
+		resp.Repos = repos
+		fail(err)
+	case "plan":
+		resp.Actions = planPrune(req.Desired, verifC34Shards(req.Shards))
+	case "records":
+		resp.Records = recordsFromShards(verifC34Shards(req.Shards))
+	case "select":
+		records, err := selectRecords(recordsFromShards(verifC34Shards(req.Shards)), req.Selectors)
+		resp.Records = records
+		fail(err)
+	case "normalize":
+		resp.Out = normalizeSource(req.Source)
+	default:
+		resp.Err = "verif: unknown op " + req.Op
+	}
+	return resp
+}
+
+func init() {
+	if os.Getenv("ZOEKT_VERIF_DRIVER") != "c34" {
+		return
+	}
+	in := bufio.NewReaderSize(os.Stdin, 1<<20)
+	out := bufio.NewWriter(os.Stdout)
+	for {
+		line, err := in.ReadBytes('\n')
+		if len(bytes.TrimSpace(line)) > 0 {
+			var req verifC34Req
+			var resp verifC34Resp
+			if jerr := json.Unmarshal(line, &req); jerr != nil {
+				resp.Err = "verif: bad request: " + jerr.Error()
+			} else {
+				resp = verifC34Handle(req)
+			}
+			b, _ := json.Marshal(resp)
+			out.Write(b)
+			out.WriteByte('\n')
+			out.Flush()
+		}
+		if err != nil {
+			break
+		}
+	}
+	os.Exit(0)
+}
